@@ -196,6 +196,57 @@ def run_multi(spec, seq, ctx):
     lib.clear_caches()
 
 
+def run_handover(spec, ctx):
+    """Two evaluators over one model, an input changed between their turns
+    (by the other evaluator or on the model itself): both, and a third one
+    created afterwards, obtain the same value for every cell - the value of
+    the model as it now stands."""
+    cells = spec.eval_cells
+    for c1 in cells:
+        for inp in spec.inputs:
+            for v in spec.values:
+                if v == spec.cells.get(inp):
+                    continue
+                for route in ('other-evaluator', 'model'):
+                    model = models.build(spec, lib)
+                    e1, e2 = lib.Evaluator(model), lib.Evaluator(model)
+                    lib.observe(e1.evaluate, c1)
+                    if route == 'model':
+                        model.set_cell_value(inp, v)
+                    else:
+                        e2.set_cell_value(inp, v)
+                    want = None
+                    if not spec.differential:
+                        now = dict(spec.initial_inputs())
+                        now[inp] = v
+                        want = {a: models.obs(x, lib) for a, x in
+                                spec.reference(now).items()}
+                    for c2 in cells:
+                        if c2 not in spec.formulas:
+                            continue
+                        g1 = lib.observe(e1.evaluate, c2)
+                        g2 = lib.observe(e2.evaluate, c2)
+                        g3 = lib.observe(lib.Evaluator(model).evaluate, c2)
+                        key = 'C05/%s/handover/%s/%s:=%r/%s/%s' % (
+                            spec.name, short(c1), short(inp), v, route,
+                            short(c2))
+                        inputs = {'kind': 'handover', 'model': spec.name}
+                        w = want[c2] if want else g3
+                        got = 'E1=%s E2=%s new=%s' % (g1, g2, g3)
+                        ok = all(models.agrees(g, w) for g in (g1, g2, g3))
+                        if ok:
+                            ctx.ok(key, g1, True)
+                        else:
+                            ctx.fail(key, ['oracle:same-value-every-evaluator',
+                                           'evaluators:several',
+                                           'route:' + route], inputs,
+                                     'E1=%s E2=%s new=%s' % (w, w, w), got,
+                                     True)
+                        ctx.count('transitions')
+                    ctx.count('states')
+                    lib.clear_caches()
+
+
 HEAP_SCHEDULES = ('round-robin', 'single-cell', 'two-evaluators',
                   'fresh-evaluator-per-period')
 
@@ -336,6 +387,9 @@ def plan(tier):
         spec = f()
         cells = spec.eval_cells
         shards.append({'model': spec.name, 'kind': 'procs', 'weight': 5})
+        if spec.inputs and not spec.names:
+            shards.append({'model': spec.name, 'kind': 'handover',
+                           'weight': 3})
         for first in range(len(cells)):
             shards.append({'model': spec.name, 'kind': 'seq', 'first': first,
                            'len': SEQ_LEN[tier]})
@@ -360,6 +414,8 @@ def run_shard(shard, ctx):
     cells = spec.eval_cells
     if shard['kind'] == 'procs':
         run_procs(spec, ctx)
+    elif shard['kind'] == 'handover':
+        run_handover(spec, ctx)
     elif shard['kind'] == 'seq':
         first = cells[shard['first']]
         for n in range(0, shard['len']):
@@ -379,6 +435,8 @@ def replay(inputs, ctx):
     spec = models.by_name(inputs['model'])
     if inputs['kind'] == 'procs':
         run_procs(spec, ctx)
+    elif inputs['kind'] == 'handover':
+        run_handover(spec, ctx)
     elif inputs['kind'] == 'seq':
         run_seq(spec, inputs['seq'], ctx)
     elif inputs['kind'] == 'multi':
